@@ -370,8 +370,49 @@ def r6(ctx):
                                      ('(%s.length() <= #0)' % tok, False), ('(%s.size() <= #0)' % tok, False),
                                      ('(%s.length() < #1)' % tok, False), ('(%s.size() < #1)' % tok, False)])
             ctx.ob('C18.R6', fn, x, ok, 'last character of the token', 'read only from a non-empty token: %s' % ok)
-    if n < 2:
+    # an opening quote is removed before the token is tested for a closing quote: otherwise a token that consists of the
+    # quote character alone (an argument starting with a blank) counts as opening and closing quote at once
+    opens = [nid for nid, d, rhs, op, lhs in fn.assignments() if d and d.split(':')[-1] == esc and rhs is not None and
+             fn.key(rhs) == '%s[#0]' % tok]
+    strip = set(c for c in fn.all('CXXMemberCallExpr') if (fn.nodes[c].get('callee') or '').endswith('::erase') and
+                fn.key(fn.nodes[c].get('obj', -1)) == tok and [fn.val(a_) for a_ in fn.nodes[c].get('args', [])][:2] == [0, 1])
+    lastcmp = [x for x in fn.all('BinaryOperator') if fn.nodes[x].get('op') == '==' and
+               re.match(r'^\(%s\[\(%s\.(length|size)\(\) - #1\)\] == %s\)$' % (re.escape(tok), re.escape(tok), re.escape(esc)), fn.key(x))]
+    for o in opens:
+        po = fn.pos(o)
+        early = any(fn.reaches_point(po[0], fn.pos(x), strip, start_idx=po[1] + 1) for x in lastcmp)
+        n += 1
+        ctx.ob('C18.R6', fn, o, bool(strip) and not early, 'opening quote removed before the closing-quote test',
+               'every path from the opening quote to a closing-quote test passes %s.erase(0, 1): %s' % (tok, bool(strip) and not early))
+    if n < 3:
         raise AnalysisBroken('C18.R6: only %d sites found in RequestImpl::split' % n)
+
+
+def r7(ctx):
+    ctx.rule('C18.R7', 'the connection hands every received byte to the request: the receive call of Connection::run asks for at '
+             'most sizeof(buffer) - 1 bytes, so that the terminator is written behind the data and not over its last byte', minimum=1)
+    fb = ctx.fb
+    fn = fb.fn('ebusd::Connection::run')
+    ctx.touch(fn)
+    n = 0
+    for c in fn.all('CXXMemberCallExpr', 'CallExpr'):
+        v = fn.nodes[c]
+        if not (v.get('callee') or '').endswith('recv') or len(v.get('args', [])) < 2:
+            continue
+        b0 = fn.nodes.get(fn.strip(v['args'][0], casts=True), {})
+        cap = b0.get('arr')
+        if not cap:
+            continue
+        n += 1
+        size = fn.val(v['args'][1])
+        ok = size is not None and size <= cap - 1
+        # the terminator is stored at the index the receive call returned
+        res = [d for nid, d, rhs, op, lhs in fn.assignments() if rhs is not None and fn.strip(rhs, casts=True) == c and d]
+        rewr = [nid for nid, d, rhs, op, lhs in fn.assignments() if res and d == res[0] and op != 'init' and fn.strip(rhs, casts=True) != c] if res else []
+        ctx.ob('C18.R7', fn, c, ok and not rewr, 'receive into %s[%d]' % (fn.key(v['args'][0]), cap),
+               'asks for %s bytes (capacity %d, one byte is needed for the terminator); received length modified afterwards: %s' % (size, cap, bool(rewr)))
+    if n < 1:
+        raise AnalysisBroken('C18.R7: receive call of Connection::run not recognised')
 
 
 def run(ctx):
@@ -381,3 +422,4 @@ def run(ctx):
     r4(ctx)
     r5(ctx)
     r6(ctx)
+    r7(ctx)
